@@ -44,6 +44,15 @@ pub fn basic(src: &str) -> Result<bool, String> {
         Err(p) => return Err(format!("compile of {show} {}", p.short())),
         Ok(c) => c,
     };
+    // the other public entry point accepts exactly the same texts
+    match guard(|| Program::try_from(src).is_ok()) {
+        Err(p) => return Err(format!("Program::try_from({show}) {}", p.short())),
+        Ok(ok2) => {
+            if ok2 != matches!(c, Compiled::Ok) {
+                return Err(format!("Program::compile and Program::try_from disagree on {show}: compile {} it, try_from {} it", if ok2 { "rejects" } else { "accepts" }, if ok2 { "accepts" } else { "rejects" }));
+            }
+        }
+    }
     match c {
         Compiled::Ok => Ok(true),
         Compiled::Errs(errs, whole) => {
